@@ -62,3 +62,114 @@ Example C19_example :
   nl_run [] [OSet (B "en") (B "x"); OAppend (B "fr") (B "y"); OSet (B "en") (B "z"); OGet (B "en"); OGet (B "de")]
   = ([(B "en", B "z"); (B "fr", B "y")], [Some (B "z"); None]).
 Proof. split; [apply nodup_tagsb_spec; vm_compute; reflexivity|vm_compute; reflexivity]. Qed.
+
+(* ---- function bodies under the translator: generated-table tie (b45) ---- *)
+(* Model/Nlv.v was hand-written after the source and tied to it by the correspondence cases only.  Now Gen/NlvT.v is
+   regenerated on every run (translator/gobody.go) with the bodies of NaturalLanguageValues.Get / Set / Add / Append /
+   Count / First and LangRefValue.Equals, statement by statement, in the imperative language of Model/GoBody.v (pointer
+   receivers written through, indexed assignment, range with key and value, early return; calls under the names
+   go/types resolves them to; anything outside the language is an explicit GsUnrec / GxUnrec entry).  Model/GoBody.v
+   gives such a table its meaning (the interpreter run_fn), Model/NlvTab.v closes the seven functions over each other
+   (Set calls Append; the one leaf is Content.Equals = bytes.Equal) and states the decidable condition nlv_table_ok
+   (each function has the body Model/Nlv.v was written after).  Proofs/NlvTabP.v: for every table satisfying the
+   condition, for all lists, tags and texts, the table's meaning is the hand-written model.
+   NaturalLanguageValues.Equals is already in Gen/ItemsEqT.v (builder b32): its entry is reused, not emitted twice. *)
+From AP.Model Require Import Vocab Layout GoBody NlvTab NlvGen.
+From AP.Proofs Require Import GoBodyP NlvTabP.
+From AP.Model Require ItemsEqTab ItemsEqGen ItemsEqEntry.
+From AP.Proofs Require ItemsEqTabP.
+
+(* generic: for EVERY table satisfying the condition, every list, tag, text.  A result is (returned values, the
+   receiver afterwards); pnl l = a pointer to the list l *)
+Theorem C19_get_table_tie : forall tbl, nlv_table_ok tbl = true -> forall l t,
+  nlv_get_t tbl l t = Ok ([match nl_get l t with Some v => GvBytes v | None => GvNil end], Some (GvNl l)).
+Proof. exact nlv_get_tie. Qed.
+
+Theorem C19_set_table_tie : forall tbl, nlv_table_ok tbl = true -> forall l t v,
+  nlv_set_t tbl l t v = Ok ([GvNil], Some (pnl (nl_set l t v))).
+Proof. exact nlv_set_tie. Qed.
+
+Theorem C19_append_table_tie : forall tbl, nlv_table_ok tbl = true -> forall l t v,
+  nlv_append_t tbl l t v = Ok ([GvNil], Some (pnl (nl_append l t v))).
+Proof. exact nlv_append_tie. Qed.
+
+Theorem C19_add_table_tie : forall tbl, nlv_table_ok tbl = true -> forall l e,
+  nlv_add_t tbl l e = Ok ([], Some (pnl (nl_append l (fst e) (snd e)))).
+Proof. exact nlv_add_tie. Qed.
+
+(* Count: the length, and 0 through a nil pointer *)
+Theorem C19_count_table_tie : forall tbl, nlv_table_ok tbl = true ->
+  (forall l, nlv_count_t tbl (pnl l) = Ok ([GvInt (Z.of_nat (nl_count l))], Some (pnl l))) /\
+  nlv_count_t tbl pnl_nil = Ok ([GvInt 0], Some pnl_nil).
+Proof. intros tbl H. split; [exact (nlv_count_tie tbl H)|exact (nlv_count_nil_tie tbl H)]. Qed.
+
+Theorem C19_first_table_tie : forall tbl, nlv_table_ok tbl = true -> forall l,
+  nlv_first_t tbl l = Ok ([GvLrv (nl_first l)], Some (GvNl l)).
+Proof. exact nlv_first_tie. Qed.
+
+Theorem C19_lrv_equals_table_tie : forall tbl, nlv_table_ok tbl = true -> forall a b,
+  lrv_equals_t tbl a b = Ok ([GvBool (lrv_eqb a b)], Some (GvLrv a)).
+Proof. exact lrv_equals_tie. Qed.
+
+(* histories: nl_run - the function the correspondence cases run against the code - with every call going through
+   the table is nl_run, for every history from every state *)
+Theorem C19_hist_table_tie : forall tbl, nlv_table_ok tbl = true -> forall ops l,
+  nl_run_t tbl l ops = Ok (nl_run l ops).
+Proof. exact nl_run_tie. Qed.
+
+(* NaturalLanguageValues.Equals through its entry of Gen/ItemsEqT.v: for every table holding the body nl_equals was
+   written after (the condition on that one entry; C09_itemseq_table asks it of all six) *)
+Theorem C19_equals_table_tie : forall tbl, ItemsEqTab.fn_matches tbl ItemsEqTab.m_nlv_equals = true ->
+  forall n w, ItemsEqTab.sem_nlv_equals tbl n w = Ok (nl_equals n w).
+Proof.
+  intros tbl H n w. unfold ItemsEqTab.sem_nlv_equals, ItemsEqTab.run_named.
+  change ItemsEqTab.n_nlv_equals with (ItemsEqTab.gf_name ItemsEqTab.m_nlv_equals).
+  rewrite (ItemsEqTabP.fn_matches_spec tbl _ H). apply ItemsEqTabP.nlv_equals_model.
+Qed.
+
+(* diagnosis first: when the source moved, this is the obligation that fails, and Coq's error message names the
+   function, the position of the first top-level statement that differs, the generated and the modelled statement *)
+Theorem C19_nlv_table_first_bad : nlv_first_bad gen_nlv_fns = None.
+Proof. vm_compute. reflexivity. Qed.
+
+(* the conditions on the tables regenerated from the source on this run *)
+Theorem C19_nlv_table : nlv_table_ok gen_nlv_fns = true.
+Proof. vm_compute. reflexivity. Qed.
+
+Theorem C19_equals_entry_first_bad :
+  ItemsEqEntry.entry_first_bad ItemsEqGen.gen_itemseq_fns ItemsEqTab.m_nlv_equals = None.
+Proof. vm_compute. reflexivity. Qed.
+Theorem C19_equals_entry : ItemsEqTab.fn_matches ItemsEqGen.gen_itemseq_fns ItemsEqTab.m_nlv_equals = true.
+Proof. vm_compute. reflexivity. Qed.
+
+(* hence: the container functions as the source says them now are the model *)
+Theorem C19_hist_gen : forall ops l, nl_run_t gen_nlv_fns l ops = Ok (nl_run l ops).
+Proof. exact (C19_hist_table_tie gen_nlv_fns C19_nlv_table). Qed.
+
+Theorem C19_equals_gen : forall n w, ItemsEqTab.sem_nlv_equals ItemsEqGen.gen_itemseq_fns n w = Ok (nl_equals n w).
+Proof. exact (C19_equals_table_tie ItemsEqGen.gen_itemseq_fns C19_equals_entry). Qed.
+
+(* non-vacuity: the seven functions are there, and the generated table evaluated (nothing hand-written but the
+   interpreter): the history of C19_example, Count, First, LangRefValue.Equals *)
+Example C19_nlv_gen_example :
+  length gen_nlv_fns = 7 /\
+  nl_run_t gen_nlv_fns [] [OSet (B "en") (B "x"); OAppend (B "fr") (B "y"); OSet (B "en") (B "z"); OGet (B "en"); OGet (B "de")]
+    = Ok ([(B "en", B "z"); (B "fr", B "y")], [Some (B "z"); None]) /\
+  nlv_count_t gen_nlv_fns (pnl [(B "en", B "z"); (B "fr", B "y")]) = Ok ([GvInt 2], Some (pnl [(B "en", B "z"); (B "fr", B "y")])) /\
+  nlv_first_t gen_nlv_fns [(B "en", B "z"); (B "fr", B "y")] = Ok ([GvLrv (B "en", B "z")], Some (GvNl [(B "en", B "z"); (B "fr", B "y")])) /\
+  lrv_equals_t gen_nlv_fns (B "en", B "z") (B "en", B "y") = Ok ([GvBool false], Some (GvLrv (B "en", B "z"))).
+Proof. repeat match goal with |- _ /\ _ => split end; vm_compute; reflexivity. Qed.
+
+(* what the condition is for: the tables of sources in which (a) Set lost `if !found { n.Append(ref, v) }`, (b) Get
+   returns the tag instead of the text fail the condition, the diagnosis names function and statement, and the
+   meaning of those tables gives the wrong answer: Set of a new tag adds nothing; Get(en) answers "en" *)
+Example C19_changed_body_rejected :
+  nlv_table_ok nlv_fns_set_never_appends = false /\
+  option_map (fun p => (fst p, option_map (fun q => fst (fst q)) (snd p))) (nlv_first_bad nlv_fns_set_never_appends)
+    = Some (n_nlv_set, Some 2) /\
+  nl_state_of (nlv_set_t nlv_fns_set_never_appends [] (B "en") (B "x")) = Ok [] /\
+  nlv_table_ok nlv_fns_get_returns_tag = false /\
+  option_map (fun p => (fst p, option_map (fun q => fst (fst q)) (snd p))) (nlv_first_bad nlv_fns_get_returns_tag)
+    = Some (n_nlv_get, Some 0) /\
+  nl_answer_of (nlv_get_t nlv_fns_get_returns_tag [(B "en", B "x")] (B "en")) = Ok (Some (B "en")).
+Proof. repeat match goal with |- _ /\ _ => split end; vm_compute; reflexivity. Qed.
